@@ -141,7 +141,7 @@ class Gen(object):
         if kind is None:
             if r.random() < self.p.p_boundary:
                 kind = r.choice(['hi', 'lo', 'hi+', 'lo-', 'hi+half', 'lo-half', 'tie', 'far', 'far-',
-                                 'zero', 'hi+frac', 'lo-frac', 'near_hi', 'near_lo'])
+                                 'zero', 'hi+frac', 'lo-frac', 'near_hi', 'near_lo', 'pow2', 'pow2'])
             else:
                 kind = r.choice(['exact', 'exact', 'inexact', 'inexact', 'tie'])
         half = Fraction(1, 2)
@@ -170,6 +170,13 @@ class Gen(object):
             c = hi - r.randint(0, 2) + fr
         elif kind == 'near_lo':
             c = lo + r.randint(0, 2) - fr
+        elif kind == 'pow2':
+            # a single-bit code (often the top bit): where magnitude estimates by log2 are tight
+            k = r.choice([nw - 1, nw - 1, nw - 2, r.randint(0, max(0, nw - 1))]) - (1 if s else 0)
+            c = Fraction(1 << max(0, k))
+            if s and r.random() < 0.4:
+                c = -c
+            c = max(Fraction(lo), min(Fraction(hi), c))
         elif kind == 'tie':
             c = r.randint(lo, hi) + (half if extra else Fraction(0))
         elif kind == 'far':
@@ -663,7 +670,7 @@ class Gen(object):
         return op
 
     def g_shift(self):
-        k, i = self.pick(self.is_real, prefer=lambda o: o.n_word <= 40)
+        k, i = self.pick(self.is_real, prefer=(lambda o: o.n_word <= 40) if self.rng.random() < 0.5 else None)
         if k is None:
             return self.g_new()
         o = self.w.slots[i].obj
